@@ -1080,6 +1080,19 @@ func (c *Ctx) genC11() {
 				c.kiPrefix = pfx
 				c.count("c11-keyinfo-prefix", pfx+"/"+cert)
 				c.xdecrypt(xKey{kind: "r", id: 1}, ls, nil, "keyinfo-prefix:"+pfx)
+				// the same message presented again, and again right after a message that does match: a verdict is about the
+				// message at hand, whatever was decrypted before
+				if pfx == "ds" && cert != "" && cert != "match" {
+					for rep := 0; rep < 2; rep++ {
+						c.xdecrypt(xKey{kind: "r", id: 1}, ls, nil, "keyinfo-repeat:"+cert)
+					}
+					good := []xLayer{ls[0], ls[1]}
+					good[1].cert = "match"
+					c.xdecrypt(xKey{kind: "r", id: 1}, good, nil, "keyinfo-repeat:match")
+					for rep := 0; rep < 3; rep++ {
+						c.xdecrypt(xKey{kind: "r", id: 1}, ls, nil, "keyinfo-repeat-after-match:"+cert)
+					}
+				}
 				c.kiPrefix = ""
 			}
 		}
